@@ -227,7 +227,12 @@ func (x *run) checkC03Fresh(obs []seen) *Failure {
 	seenOnce := map[*kit.Entry]string{}
 	for _, s := range obs {
 		reg := x.M.Regs[s.Owner.Reg]
-		if reg.Life != kit.Transient || reg.Form == kit.FormInstance || s.E == nil || (s.ByInv != nil && !vis[s.ByInv]) {
+		if s.E == nil || (s.ByInv != nil && !vis[s.ByInv]) {
+			continue
+		}
+		// judged by who asked (an identity owned by a transient registration) and by who made
+		// it (an instance a transient constructor returned, whatever it was handed out as)
+		if !(reg.Life == kit.Transient && reg.Form != kit.FormInstance) && !x.madeByTransient(s.E) {
 			continue
 		}
 		if prev, dup := seenOnce[s.E]; dup {
@@ -238,12 +243,29 @@ func (x *run) checkC03Fresh(obs []seen) *Failure {
 	return nil
 }
 
+// madeByTransient: the instance was returned by a constructor registered as transient.
+func (x *run) madeByTransient(e *kit.Entry) bool {
+	if e == nil || e.Inv == nil {
+		return false
+	}
+	r, ok := x.M.Regs[e.Reg]
+	return ok && r.Life == kit.Transient && r.Form != kit.FormInstance
+}
+
 func (x *run) checkC03(obs []seen) *Failure {
 	sites := map[int]int{}
 	seenOnce := map[*kit.Entry]string{}
 	for _, s := range obs {
 		reg := x.M.Regs[s.Owner.Reg]
 		if reg.Life != kit.Transient || reg.Form == kit.FormInstance {
+			// not a request for a transient - but what a transient constructor made must not
+			// turn up here either: that instance belongs to the one site that asked for it
+			if s.E != nil && x.madeByTransient(s.E) {
+				if prev, dup := seenOnce[s.E]; dup {
+					return fail("C03", "fresh", s.ViaKind+"/"+formFeature(reg)+"/handed-out-as-another-service", "transient instance %v handed out twice: at %s and at %s", s.E, prev, s.Where)
+				}
+				seenOnce[s.E] = s.Where
+			}
 			continue
 		}
 		sites[s.Owner.Reg]++
